@@ -15,5 +15,6 @@ for f in sorted(glob.glob(os.path.join(ROOT, "seeded", "*", "meta.json"))):
             caught.append(f"{p}{tag}: {ff}")
         else:
             missed.append(p)
+    note = " **note:** " + m["note"][:220].replace("|", "/") + "…" if m.get("note") else ""
     needs = (m.get("needs_to_manifest") or "")[:160].replace("|", "/").replace("\n", " ")
-    print(f"| `{name}` | {m.get('property')} | {needs} | {'<br>'.join(caught) or '—'} | {', '.join(missed) or '—'} |")
+    print(f"| `{name}` | {m.get('property')} | {needs}{note} | {'<br>'.join(caught) or '—'} | {', '.join(missed) or '—'} |")
